@@ -34,9 +34,9 @@ type GenCfg struct {
 	PartProb   float64 // probability per event to start a partition period
 	TieHeavy   bool
 	IndexCfg   IndexCfg
-	Sleeper    bool // the canonical-first validator alternates silent stretches with catch-up events linking to every tip
+	Sleeper    bool  // the canonical-first validator alternates silent stretches with catch-up events linking to every tip
 	UseInst    *Inst // generate through this existing instance instead of a fresh one
-	Plain      bool // no consensus instance: only the DAG shape is generated (frame 1 everywhere), one epoch
+	Plain      bool  // no consensus instance: only the DAG shape is generated (frame 1 everywhere), one epoch
 }
 
 type EpochDAG struct {
@@ -46,10 +46,10 @@ type EpochDAG struct {
 }
 
 type DAG struct {
-	Cfg    *GenCfg
-	Epochs []*EpochDAG
-	FP     uint64
-	Forks  int
+	Cfg      *GenCfg
+	Epochs   []*EpochDAG
+	FP       uint64
+	Forks    int
 	Rejected *Ev
 }
 
